@@ -26,7 +26,7 @@ CLAIMED = {
              "unconditionally; CUBIC under seven explicit IEEE order facts), plus necessity counterexamples. The model (recovery.py, "
              "reno.py, cubic.py, transcribed operation by operation over an abstract arithmetic) is run with Lean Float and compared "
              "bit-for-bit with the real QuicPacketRecovery on random interleavings; a connection-level oracle checks the ledger after "
-             "every API call incl. Retry / Version Negotiation restarts. The flight-budget clause is decided with the builder model (C13).",
+             "every API call incl. Retry / Version Negotiation restarts. Flight-budget clause: AQ.Props.C08b (builder model: in-flight bytes of one datagrams_to_send <= max(cwnd - in flight, 0), one datagram when a probe is pending) plus a connection-level oracle on full-window scenarios.",
         note="Trusted: Lean kernel; standard axioms only; correspondence harness (harness/impl_recovery.py, harness/sim.py); "
              "CubicOrderFacts (IEEE-754 monotonicity/exactness below 2^53) are hypotheses of cwnd_floor_cubic only; packet numbers fresh per space.",
         technique="Lean 4 invariant proofs by induction over op sequences, generic in the float arithmetic; bit-exact differential correspondence",
@@ -87,6 +87,120 @@ CLAIMED = {
              "correspondence only; TLS message codecs pending.",
         technique="Lean 4 algebraic round-trip laws for all inputs; differential correspondence incl. independent encoder",
         design="DESIGN.md §5 C17",
+    ),
+    "C01": dict(
+        text="Lean 4 theorems (AQ.Props.C01) on the one-stream end-to-end model (sender half + receiver half of C10 + wire of every "
+             "emitted frame, any frame delivered any number of times in any order, ack/loss once per emission): delivered bytes = "
+             "written.take(n) (prefix, in order, gap- and repeat-free), at most one end-of-stream event and only after FIN was written "
+             "and everything delivered, no FinalSizeError from honest frames, conservation of unsent obligations, bounded progress "
+             "(c01_liveness_partial: the temporal statement over infinite fair runs is not formalised), with counterexample theorems for "
+             "the three pre-fix behaviours. Tie: per-step correspondence derived from real connections (wrapped stream methods) and a "
+             "property oracle over PRNG scripts x adversarial then fair networks (drop/dup/reorder/rebind, both controllers, both "
+             "versions, key updates, CID changes) + directed scenarios for each repaired defect.",
+        note="Trusted: Lean kernel; standard axioms; harness/sim.py + impl_streamsys.py; flow-control checks are modelled as passing "
+             "(C06/C07); key updates / CID changes / rebinding / liveness across them are covered by the oracle runs only.",
+        technique="Lean 4 refinement composition + invariants over op sequences; connection-level correspondence and oracle",
+        design="DESIGN.md §5 C01",
+    ),
+    "C02": dict(
+        text="Lean 4 theorems: AQ.Props.C02 (truncated packet number expands to the closest candidate for every bits/expected, exact "
+             "window for round trip, edge counterexample) and AQ.Props.C02b (nonce = iv XOR pn and injective; header protection "
+             "round trip / sample untouched / injective for every header form and pn length; protect/unprotect round trip under "
+             "AEAD correctness; accepted => bit-exact genuine packet under INT-CTXT, altered => rejected, Retry likewise; a datagram "
+             "whose packets are all rejected changes nothing but byte counts / idle arm, and the genuine packet is accepted "
+             "afterwards; extracted salts/labels/retry keys = RFC 9001/9369 constants). Tie: crypto tables regenerated from source "
+             "on every run; real _crypto/CryptoContext vs the Lean pipeline with `cryptography` as independent primitive "
+             "implementation + independent HKDF; bit/byte-flip oracle on recorded handshake/data/Retry datagrams for 3 suites x 2 "
+             "versions x key phases (genuine packet delivered afterwards must behave as in the control run).",
+        note="Trusted: Lean kernel; standard axioms; cryptographic facts (AEAD correct, INT-CTXT, mask length, Retry tag determinism) "
+             "are explicit HYPOTHESES of the theorems; OpenSSL/cryptography internals; AQ.Model.RecvGate tied to receive_datagram "
+             "by the flip oracle only; CryptoPair key-update logic exercised by scenarios, not modelled.",
+        technique="Lean 4 algebraic laws + symbolic AEAD hypotheses; translator for tables; independent-implementation correspondence; exhaustive bit-flip oracle (thorough)",
+        design="DESIGN.md §5 C02",
+    ),
+    "C05": dict(
+        text="Lean 4 theorems (AQ.Props.C05, C05Frames) over tables REGENERATED from connection.py on every run: handler table within "
+             "RFC 9000 Table 3 (+RFC 9221), except-clauses catch exactly the assumed classes (tables_ok by decide); recv_total: "
+             "receive_datagram returns ignored/processed/closed-with-code, never raises, for every datagram, decrypt answer and frame "
+             "list whose handler outcomes are in the allowed set; handlers_total/payload_bytes_total: every modelled _handle_*_frame "
+             "ends only with BufferReadError/StreamFinishedError/QuicConnectionError; a crafted ACK cannot hit RangeSet's assert; "
+             "pull_quic_header raises only ValueError/BufferReadError; after_close_total: any interleaving of the five public calls "
+             "returns normally. Tie: extractor + three correspondences (header parser, _payload_received outcome/code/state, "
+             "receive_datagram control flow) + hostile-input oracle (18 connection states x 4 epochs x 1355-frame catalogue, "
+             "truncations, trains, mutated/coalesced datagrams, crafted transport parameters).",
+        note="Trusted: Lean kernel; standard axioms; tools/extract_recv.py; hypotheses: tls.Context.handle_message raises only "
+             "tls.Alert/BufferReadError/QuicConnectionError from callbacks (TLS layer: see C11 work), on_ack_received total (C08), "
+             "frame writers raise only QuicPacketBuilderStop (C12/C13/C16); handler guards are hand-modelled.",
+        technique="Lean 4 exception-outcome totality proofs over extracted tables; differential correspondence; hostile-input oracle",
+        design="DESIGN.md §5 C05",
+    ),
+    "C12": dict(
+        text="Lean 4 theorems (AQ.Props.C12): over all arrival sequences the ack queue stays well-formed and inside the set of "
+             "authenticated received numbers, every number on the wire was received for any max_size truncation, the ack deadline is "
+             "armed on arrival and survives, get_timer <= every armed ack deadline, ack_timely for 1-RTT under explicit side "
+             "conditions (keys valid, packet/frame accepted, ranges fit, total order on times), Initial/Handshake never start a "
+             "packet without the pending ACK. Tie: real connections (sim + inject: all arrival orders/gaps/duplicates per space, "
+             "loss of ACKs and ACK-of-ACK carriers) vs the model after each step; wire oracle: ACK ranges subset of authenticated "
+             "numbers, ACK within the advertised delay when timers are honoured.",
+        note="Trusted: Lean kernel; standard axioms; harness/impl_ack.py, ack_scen.py; codec round trip of ACK frames from C17; "
+             "'next transmission' read for open connections (closing packets carry no ACK); truncation keeps the newest ranges.",
+        technique="Lean 4 invariants over op sequences; connection-level correspondence and wire oracle",
+        design="DESIGN.md §5 C12",
+    ),
+    "C13": dict(
+        text="Lean 4 theorems (AQ.Props.C13) for every builder configuration and disciplined call sequence: no datagram exceeds "
+             "max_datagram_size, a datagram with a client Initial / ack-eliciting server Initial is >= 1200 bytes (full statement, "
+             "after the fixes), bytes_sent <= 3*bytes_received on every unvalidated path over all receive/new-address/validate/"
+             "promote/send histories incl. the close path, one send call within the budget, builder raises only "
+             "QuicPacketBuilderStop; the executable discipline test is proved sound and found true on every builder call recorded "
+             "from real connections. Tie: real QuicPacketBuilder + CryptoPair vs the model on exhaustive/random call sequences; "
+             "budget formulas compared on every datagrams_to_send; wire oracle for sizes, padding and the 3x rule per address "
+             "(rebinding, spoofed-source Initials, 0-RTT filling the window).",
+        note="Trusted: Lean kernel; standard axioms; harness/impl_builder.py, amp_scen.py; AQ.Model.Amplification has no line "
+             "protocol (tied by formula comparison + wire oracle); header sizes are inputs.",
+        technique="Lean 4 arithmetic invariants over builder/path histories; differential correspondence; wire oracle",
+        design="DESIGN.md §5 C13",
+    ),
+    "C14": dict(
+        text="Lean 4 theorems (AQ.Props.C14): for a request/push stream and any stateful non-blocking QPACK/validator oracle, "
+             "delivering any chunking of the bytes (FIN on the last chunk or alone, empty chunks allowed) gives the same error or "
+             "the same final state and per-stream normal form (headers, body, trailers, push promises, WebTransport bytes, ended) as "
+             "one delivery; frame encode/parse round trip (varint law proved); send_headers+send_data round trip under QPACK "
+             "correctness; counterexample theorems for the four pre-fix behaviours. Tie: real H3Connection + pylsqpack with recorded "
+             "oracle answers replayed on the model; all 2^(n-1) splittings of short streams, random splittings/interleavings, real "
+             "send/receive round trips incl. blocked streams; oracle: events normalised per stream identical across chunkings.",
+        note="Trusted: Lean kernel; standard axioms; pylsqpack is an oracle (its answers are inputs); chunk independence is proved at "
+             "_receive_request_or_push_data level for non-blocking oracles; uni-stream demux, blocking and cross-stream interleaving "
+             "are covered by correspondence/oracle only (chunk_independent is partial in that sense).",
+        technique="Lean 4 parser-invariant proof over all chunkings; oracle-replay differential correspondence; exhaustive small-scope splittings",
+        design="DESIGN.md §5 C14",
+    ),
+    "C16": dict(
+        text="Lean 4 theorems (AQ.Props.C16): for EVERY connection state, event and oracle, H3 handleEvent returns (events, or done + "
+             "an H3 error code) and never raises; likewise H0; the CONNECTION_CLOSE frame always fits for every reason length and "
+             "UTF-8 cut (close_emittable); one counterexample theorem per pre-fix escaping exception. Tie: real H3Connection/"
+             "H0Connection vs model on all frame type/length/payload combinations (truncated varints, zero/huge lengths, reserved/"
+             "duplicate settings, duplicate critical streams, wrong-stream frames, malformed QPACK) after valid prefixes; close-frame "
+             "capacity arithmetic vs the real builder; oracle: no exception from handle_event or from datagrams_to_send after the close.",
+        note="Trusted: Lean kernel; standard axioms; harness/impl_h3parser.py; QPACK/validators as oracle parameters; after an "
+             "escaping exception the partially mutated Python state is not tracked (none escapes on the current tree).",
+        technique="Lean 4 totality proofs over all states/events; differential correspondence; exception oracle",
+        design="DESIGN.md §5 C16",
+    ),
+    "C20": dict(
+        text="Lean 4 theorems: AQ.Props.C20 (generic noninterference for every well-typed log program, any semantics, loop bound and "
+             "call depth; log code never raises; guarded blocks transparent; non-vacuity counterexamples) and AQ.Props.C20Gen by "
+             "decide +kernel on the program REGENERATED from logger.py/connection.py/recovery.py/packet_builder.py/h3 on every run: "
+             "it is well-typed (guards write only log-only locations, no log-to-protocol flow), encoders contain no unprotected "
+             "partial operation, encoder results are JSON types only, exactly one packet_sent / packet_received-or-dropped record on "
+             "every registering/authenticating path. Tie: the translator + paired runs (same seed, logging off vs qlog/secrets/both/"
+             "file logger) over benign/lossy/hostile/HTTP3 scenarios comparing events, decrypted frames, sizes, timers, final state, "
+             "exceptions, strict JSON serialisation and record counts.",
+        note="Trusted: Lean kernel (propext, Quot.sound only); tools/extract_log.py AST-to-IR translation and its tables (PURE_CALLS, "
+             "CALLBACK_EDGES, ARGUED, TYPE_HINTS); log sinks do not fail; two partial operations rest on argued invariants; "
+             "session-ticket/0-RTT paired scenarios not covered.",
+        technique="Lean 4 noninterference theorem on a regenerated IR (translator) + decide on the extracted program; paired-run oracle",
+        design="DESIGN.md §5 C20",
     ),
 }
 NOT_YET = "machinery for this property is still under construction in this round (model/proofs/correspondence incomplete); not claimed"
